@@ -84,6 +84,10 @@ def term(value: typing.Any) -> Term:
         return value
     if value is None:
         return NONE
+    if hasattr(value, '__term__'):
+        return value.__term__()
+    if hasattr(value, 'tolist') and not isinstance(value, (bytes, bytearray, str)):
+        return term(value.tolist())
     if isinstance(value, (tuple, list)):
         return Term('tuple', *(term(v) for v in value))
     if isinstance(value, (bytes, bytearray)):
